@@ -4,7 +4,7 @@ from analysis.cfg import Cfg
 from analysis.flow import (DefUse, backward, find_calls, callee_is, callee_ends, op_local, op_const, switch_info,
                            bool_branch, variant_arms, static_of, field_chain)
 from analysis.table import describe_val, PathWalker
-from rules.common import need, inl, unit
+from rules.common import need, inl, unit, family
 
 CO = "coroutine::korosensei::Coroutine"
 SUS = "coroutine::suspender::korosensei::Suspender"
@@ -778,7 +778,7 @@ def local_rule(run, f, rid_private, rid_map, rid_release):
         b = need(run, rid_map, f, fn)
         if b is None:
             continue
-        calls = [norm(t.get("callee") or "") for c in [b] + f.closures_of(b) for (_x, t) in c.calls()]
+        calls = [norm(t.get("callee") or "") for c in family(f, b) for (_x, t) in c.calls()]      # incl. a `take_back` style helper
         has_leak = any(c.endswith("Box::leak") or c.endswith("Box::into_raw") for c in calls)
         has_from_raw = any(c.endswith("Box::from_raw") for c in calls)
         mapop = {"put": "::insert", "remove": "::remove", "get": "::get"}[fn.rsplit("::", 1)[1]]
@@ -793,7 +793,7 @@ def local_rule(run, f, rid_private, rid_map, rid_release):
         b = f.body(fn)
         if b is None:
             continue
-        calls = [norm(t.get("callee") or "") for c in [b] + f.closures_of(b) for (_x, t) in c.calls()]
+        calls = [norm(t.get("callee") or "") for c in family(f, b) for (_x, t) in c.calls()]
         if any(c.endswith("Box::from_raw") for c in calls):
             run.ok(rid_release, fn + "/rebox", "displaced pointer is re-boxed")
         else:
